@@ -129,13 +129,13 @@ def canon_side(history, seq):
             st = Step()
             st.raw_out, st.raw_obs = cur[:k], cur[k + 1:]
             st.out = decode_out(st.raw_out)
-            st.obs = decode_tokens(st.raw_obs, 0)[0] if st.raw_obs else None
+            st.obs = decode_tokens(st.raw_obs, 0)[0] if st.raw_obs and st.raw_obs != ['_'] else None
             steps.append(st)
             cur = []
         else:
             cur.append(t)
     for st, op in zip(steps, history):
-        st.op = op
+        st.op = op[1] if op and op[0] == 'noobs' else op
         st.extra = None
     return steps
 
@@ -168,6 +168,8 @@ def model_steps(history, line_out):
     parts = hist.split_steps(line_out)
     seq = []
     for op, (mo, mobs) in zip(history, parts):
+        if op[0] == 'noobs':
+            op = op[1]
         if op[0] == 'distinct' and mo and mo[0] == '[':
             mo = ['set'] + ' '.join(sorted(split_array(mo))).split()
         seq.append((mo, mobs))
@@ -331,7 +333,9 @@ def py_equal(a, b):
 
 def full_view(op, out, obs):
     """outcome and the complete observable state (documents type-exactly, index names)"""
-    if isinstance(obs, dict):
+    if obs is None:
+        st = None
+    elif isinstance(obs, dict):
         docs = obs.get('docs')
         st = (tuple(freeze(d) for d in docs) if isinstance(docs, list) else docs,
               tuple(obs.get('indexes') or ()))
